@@ -695,6 +695,9 @@ func c35Scan(g *c35Group) *c35Mentions {
 
 type c35Env struct {
 	BoxOpen bool // every app lets its family / everybody use its boxes (authorisation never the obstacle)
+	// approval / clear-state programs installed in the ledger for some apps (callees of inner app calls)
+	AppApproval map[basics.AppIndex][]byte
+	AppClear    map[basics.AppIndex][]byte
 }
 
 func c35NewLedger(env c35Env, freezer basics.Address) *Ledger {
@@ -711,10 +714,13 @@ func c35NewLedger(env c35Env, freezer basics.Address) *Ledger {
 		}
 	}
 	for _, id := range c35AppIDs {
-		prog := c35Trivial(LogicVersion)
+		prog, clear := c35Trivial(LogicVersion), c35Trivial(LogicVersion)
+		if p, ok := env.AppApproval[id]; ok {
+			prog, clear = p, env.AppClear[id]
+		}
 		l.NewApp(c35U.creator, id, basics.AppParams{
 			ApprovalProgram:   prog,
-			ClearStateProgram: prog,
+			ClearStateProgram: clear,
 			StateSchemas: basics.StateSchemas{
 				LocalStateSchema:  basics.StateSchema{NumUint: 4, NumByteSlice: 4},
 				GlobalStateSchema: basics.StateSchema{NumUint: 4, NumByteSlice: 4},
